@@ -26,7 +26,8 @@ RR = "ide::def::resolver::ResolveResult"
 
 def moddef_table(F, fn):
     """ModuleDefId variant -> ResolveResult variant constructed in that arm (None = nothing)"""
-    fs = [F.fns[p] for p in F.with_closures(fn.path)]
+    # the match may sit in the function, in a closure, or in a helper of the resolver module it delegates to
+    fs = [F.fns[p] for p in F.with_helpers(fn.path, depth=1) if p == fn.path or "{closure" in p or p.startswith("ide::def::resolver::")]
     for f in fs:
         d = FL.Defs(f)
         b0, t = c05.match_on(f, d, MD)
